@@ -99,6 +99,7 @@ class C01(MsgProp):
                         for _, x in mf["fields"]:
                             toks += g.msm(r, f, "valid", invalid=inv) if x == f["id"] else g.frag(r, x, "valid")
                         yield ("ENC %d %s" % (num, " ".join(toks)), "msm-invalid-class", True)
+        yield from string_neighbour_ops(g, r)
         # message values extended in place (public mutators) between two encodes: text, descriptor, list
         for kind, cap in (("text", 127), ("desc", 31), ("list", 31)):
             for total in (1, 2, 12, cap - 1, cap, cap + 1):
@@ -602,6 +603,27 @@ def failing_builds(g, r, per=6):
     return out
 
 
+def string_neighbour_ops(g, r):
+    """a relation between neighbouring fields: descriptor strings ending in a low / high byte, directly followed by a
+    zero (or all-ones) byte of the next field, with short and long strings after them (word-at-a-time string code sees
+    the neighbour's bytes)"""
+    for n in (1007, 1008, 1033):
+        if n not in g.numbers:
+            continue
+        base = g.message(r, n, "safe").split(" ")
+        bpos = [i for i, t in enumerate(base) if t.startswith("b")]
+        for last in (1, 2, 0x7F, 0x80, 0xA4, 0xFE, 0xFF):
+            for body in (b"", b"TRM", b"ABCDEFG", b"ABCDEFGHIJKLMNO", b"\x01\x01\x01"):
+                for nxt in (0, 1, 255):
+                    for rest in ("-", hx(b"SN-00112233"), hx(b"\x01" * 9)):
+                        t = list(base)
+                        for j, i in enumerate(bpos):
+                            t[i] = "b" + (hx(body + bytes([last])) if j == 0 else rest)
+                            if i + 1 < len(t) and t[i + 1].startswith("i"):
+                                t[i + 1] = "i%d" % nxt
+                        yield ("ENC " + " ".join(t), "string-then-neighbour-byte", True)
+
+
 def patch_first_int(toks, idx, value):
     out = list(toks)
     ints = [i for i, t in enumerate(out) if t.startswith("i")]
@@ -1006,24 +1028,7 @@ class C17(MsgProp):
                     txt = fill * k + chr(cp)
                     if len(txt) <= 127 and len(txt.encode()) <= 255:
                         yield ("ENC 1029 i%d i%d i%d b%s" % (r.randrange(4096), r.randrange(65536), r.randrange(86400), hx(txt.encode())), "text-boundary", True)
-        # a relation between neighbouring fields: descriptor strings ending in a low / high byte, directly followed by a
-        # zero (or all-ones) byte of the next field, with short and long strings after them (word-at-a-time string code
-        # sees the neighbour's bytes)
-        for n in (1007, 1008, 1033):
-            if n not in g.numbers:
-                continue
-            base = g.message(r, n, "safe").split(" ")
-            bpos = [i for i, t in enumerate(base) if t.startswith("b")]
-            for last in (1, 2, 0x7F, 0x80, 0xA4, 0xFE, 0xFF):
-                for body in (b"", b"TRM", b"ABCDEFG", b"ABCDEFGHIJKLMNO", b"\x01\x01\x01"):
-                    for nxt in (0, 1, 255):
-                        for rest in ("-", hx(b"SN-00112233"), hx(b"\x01" * 9)):
-                            t = list(base)
-                            for j, i in enumerate(bpos):
-                                t[i] = "b" + (hx(body + bytes([last])) if j == 0 else rest)
-                                if i + 1 < len(t) and t[i + 1].startswith("i"):
-                                    t[i + 1] = "i%d" % nxt
-                            yield ("ENC " + " ".join(t), "string-then-neighbour-byte", True)
+        yield from string_neighbour_ops(g, r)
         for total in (5, 100, 126, 127, 128, 130):
             for k in (0, 1, total - 2, total - 1):
                 cps = [r.choice([0x61, 0xE9, 0x65E5, 0x1F600]) if total < 100 else 0x61 for _ in range(total)]
